@@ -3,14 +3,19 @@
 # usage: verify_fixes.sh [worktree-dir]   -> log in /tmp/verify_fixes.log
 W=${1:-/tmp/wt/verify}
 L=/tmp/verify_fixes.log
-git -C /repo worktree remove --force $W 2>/dev/null
-git -C /repo worktree add --detach $W HEAD > $L 2>&1 || exit 2
-cd $W
-echo "== HEAD $(git rev-parse --short HEAD)" >> $L
+cd $W || exit 2
+git checkout -q -- . ; rm -f oxidize-pdf-core/tests/seed_*_demo.rs oxidize-pdf-core/tests/verif_demo_*.rs
+git checkout -q --detach $(git -C /repo rev-parse HEAD) || exit 2
+echo "== HEAD $(git rev-parse --short HEAD)" > $L
 nice cargo nextest run --workspace --no-fail-fast --tool-config-file pb:/w/lib/nextest.toml --profile pb --test-threads 8 --offline >> $L 2>&1
 python3 /verif/tools/baseline_cmp.py target/nextest/pb/junit.xml >> $L 2>&1; echo "suite_regressions_exit=$?" >> $L
 cp /verif/fixes/demos/verif_demo_*.rs oxidize-pdf-core/tests/
-for t in a b c d e; do
+for d in /verif/fixes/demos/verif_demo_*_unit.diff; do git apply $d 2>>$L || echo "unit demo $d does not apply" >> $L; done
+for t in a b c d e f g h; do
   echo "== demo $t" >> $L
   nice cargo test --offline -j 8 -p oxidize-pdf --test verif_demo_$t >> $L 2>&1; echo "demo_${t}_exit=$?" >> $L
 done
+echo "== unit demos" >> $L
+nice cargo test --offline -j 8 -p oxidize-pdf --lib verif_demo >> $L 2>&1; echo "demo_unit_exit=$?" >> $L
+git checkout -q -- . ; rm -f oxidize-pdf-core/tests/verif_demo_*.rs
+echo DONE >> $L
